@@ -144,7 +144,7 @@ def respell(args):
 
 class Case:
     __slots__ = ("args", "stdin", "endless", "rsched", "rintr", "rfail", "wfail", "wshort", "wintr",
-                 "efail", "flushfail", "files", "fifos", "efifos", "watchdog_ms", "use_dir", "wonce")
+                 "efail", "flushfail", "files", "fifos", "efifos", "watchdog_ms", "use_dir", "wonce", "ronce", "links", "lockfiles")
 
     def __init__(self, args=(), stdin=b"", **kw):
         self.args = list(args)
@@ -164,6 +164,9 @@ class Case:
         self.watchdog_ms = 0
         self.use_dir = False
         self.wonce = False       # with wfail: the write error is transient (one failing call)
+        self.ronce = False       # with rfail: the read error is transient
+        self.links = []          # (name, target): symbolic links in the scratch directory
+        self.lockfiles = []      # names of files the driver keeps exclusively flock'ed during the run
         for k, v in kw.items():
             setattr(self, k, v)
 
@@ -186,6 +189,8 @@ class Case:
             L.append("rintr " + ",".join(map(str, self.rintr)))
         if self.rfail is not None:
             L.append("rfail %d" % self.rfail)
+            if self.ronce:
+                L.append("ronce")
         if self.wfail is not None:
             L.append("wfail %d" % self.wfail)
             if self.wonce:
@@ -198,10 +203,14 @@ class Case:
             L.append("efail %d" % self.efail)
         if self.flushfail:
             L.append("flushfail 1")
-        if self.files or self.fifos or self.efifos or self.use_dir:
+        if self.files or self.fifos or self.efifos or self.use_dir or self.links:
             L.append("dir " + _hx(scratch))
         for n, c in self.files:
             L.append("file %s %s" % (_hx(n), _hx(c)))
+        for n, t in self.links:
+            L.append("link %s %s" % (_hx(n), _hx(t.replace("@D@", scratch) if isinstance(t, str) else t)))
+        for n in self.lockfiles:
+            L.append("lockfile " + _hx(n))
         for n in self.fifos:
             L.append("fifo " + _hx(n))
         for n, p, a, b, cap in self.efifos:
@@ -225,7 +234,7 @@ class Case:
         d = dec(d)
         c = Case()
         for k, v in d.items():
-            if k in ("files", "efifos"):
+            if k in ("files", "efifos", "links"):
                 v = [tuple(x) for x in v]
             if k == "endless" and v is not None:
                 v = tuple(v)
@@ -280,7 +289,7 @@ class Obs:
     __slots__ = ("result", "errtext", "panicinfo", "stdout", "stderr", "o_calls", "o_errored",
                  "o_after_error", "o_flushes", "e_calls", "e_errored", "e_after_error", "pulled",
                  "read_calls", "factory_calls", "eof", "cap_hit", "r_errored", "reads_after_error",
-                 "reads_after_eof", "hooks", "micros", "fifo", "efifo")
+                 "reads_after_eof", "hooks", "micros", "fifo", "efifo", "rchar")
 
     def __init__(self):
         self.result = "abort"
@@ -297,6 +306,7 @@ class Obs:
         self.micros = 0
         self.fifo = []
         self.efifo = []
+        self.rchar = 0
 
     def brief(self):
         d = {"result": self.result}
@@ -354,6 +364,8 @@ def parse_obs(lines):
             o.hooks = h
         elif k == "micros":
             o.micros = int(v)
+        elif k == "rchar":
+            o.rchar = int(v)
         elif k == "fifo":
             o.fifo.append(int(v))
         elif k == "efifo":
